@@ -197,7 +197,9 @@ Record code := {
   k_path_pure : bool;
   (* build_namespace_tree ends with _NamespaceFactory.check_namespace_files_are_not_type_files(): a namespace file whose path
      is also the path of a type's file raises ValueError before anything is listed or written *)
-  k_ns_check : bool
+  k_ns_check : bool;
+  (* _dependency_source_files() also lists every definition the DSDL front end read (pydsdl.read_files(...)[1]) *)
+  k_fix_constref : bool
 }.
 
 (* ------------------------------------------------------------------------------------------ *)
@@ -229,7 +231,9 @@ Record dtype := {
   t_stem : str;           (* <short>_<major>_<minor> *)
   t_kind : kind;
   t_src : path;           (* the .dsdl file *)
-  t_deps : list N         (* keys of the composite types it refers to directly *)
+  t_deps : list N;        (* keys of the composite types it refers to directly as the type of a field *)
+  t_crefs : list N        (* keys of the definitions it refers to ONLY inside expressions (a constant of another type in an
+                             array capacity, a constant's value, @assert, @extent): pydsdl reads them, no attribute has that type *)
 }.
 
 Record tfile := {
@@ -325,8 +329,23 @@ Definition types_read (k : code) (c : cfg) (i : inputs) : list dtype :=
 (* ---- what the two generators enumerate --------------------------------------------------- *)
 Record item := { it_kind : option kind (* None: support resource copied verbatim *); it_j2 : bool; it_path : path }.
 
-Definition ns_out (c : cfg) (ns : list str) : path := c_outdir c ++ ns ++ [stem_of c ++ ext_of c].
-Definition type_out (c : cfg) (t : dtype) : path := c_outdir c ++ t_ns t ++ [t_stem t ++ ext_of c].
+(* pathlib.PurePath.with_suffix: the last suffix of the name (from its last dot, unless that dot is the first or the last
+   character) is replaced *)
+Fixpoint index_of (x : N) (s : str) : option nat :=
+  match s with
+  | [] => None
+  | y :: r => if x =? y then Some O else match index_of x r with Some n => Some (S n) | None => None end
+  end.
+Definition py_stem (name : str) : str :=
+  match index_of 46 (rev name) with
+  | Some j => let i := (length name - 1 - j)%nat in
+              if (Nat.ltb 0 j && Nat.ltb 0 i)%bool then firstn i name else name
+  | None => name
+  end.
+Definition with_suffix (name ext : str) : str := py_stem name ++ ext.
+
+Definition ns_out (c : cfg) (ns : list str) : path := c_outdir c ++ ns ++ [with_suffix (stem_of c) (ext_of c)].
+Definition type_out (c : cfg) (t : dtype) : path := c_outdir c ++ t_ns t ++ [with_suffix (t_stem t) (ext_of c)].
 
 Definition type_items (k : code) (c : cfg) (i : inputs) : list item :=
   let ts := types_read k c i in
@@ -342,7 +361,7 @@ Definition support_resources (k : code) (c : cfg) (omit : bool) : list sres :=
 
 Definition nonempty (s : str) : bool := match s with [] => false | _ => true end.
 Definition support_out (c : cfg) (r : sres) : path :=
-  c_outdir c ++ filter nonempty (l_support_ns (c_lang c)) ++ [sr_stem r ++ ext_of c].
+  c_outdir c ++ filter nonempty (l_support_ns (c_lang c)) ++ [with_suffix (sr_name r) (ext_of c)].
 
 Definition support_items (k : code) (c : cfg) (omit : bool) : list item :=
   map (fun r => {| it_kind := None; it_j2 := sr_j2 r; it_path := support_out c r |}) (support_resources k c omit).
@@ -427,18 +446,24 @@ Definition all_types (i : inputs) : list dtype := i_roots i ++ i_lookup i.
 Definition find_type (i : inputs) (key : N) : option dtype := find (fun t => t_key t =? key) (all_types i).
 
 (* dependency closure, fuel = number of known types (a path without repetition is no longer) *)
-Fixpoint closure (i : inputs) (fuel : nat) (t : dtype) : list dtype :=
+Fixpoint closure_by (edges : dtype -> list N) (i : inputs) (fuel : nat) (t : dtype) : list dtype :=
   t :: match fuel with
        | O => []
-       | S n => flat_map (fun key => match find_type i key with Some d => closure i n d | None => [] end) (t_deps t)
+       | S n => flat_map (fun key => match find_type i key with Some d => closure_by edges i n d | None => [] end) (edges t)
        end.
+(* composite fields only: what DependencyBuilder(...).transitive().composite_types follows *)
+Definition closure (i : inputs) (fuel : nat) (t : dtype) : list dtype := closure_by t_deps i fuel t.
+(* every definition the front end reads while building the type *)
+Definition t_all (t : dtype) : list N := t_deps t ++ t_crefs t.
 
-Definition dsdl_influences (k : code) (c : cfg) (i : inputs) : list path :=
-  flat_map (fun t => map t_src (closure i (length (all_types i)) t)) (types_read k c i).
+Definition sources_by (edges : dtype -> list N) (k : code) (c : cfg) (i : inputs) : list path :=
+  flat_map (fun t => map t_src (closure_by edges i (length (all_types i)) t)) (types_read k c i).
+Definition dsdl_influences (k : code) (c : cfg) (i : inputs) : list path := sources_by t_all k c i.
 
 (* _dependency_source_files(): sources of the transitive composite dependencies of the generated types that are not generated *)
 Definition listed_dep_sources (k : code) (c : cfg) (i : inputs) : list path :=
-  filter (fun p => negb (path_in p (map t_src (types_read k c i)))) (dsdl_influences k c i).
+  filter (fun p => negb (path_in p (map t_src (types_read k c i))))
+         (sources_by (if k_fix_constref k then t_all else t_deps) k c i).
 
 (* ---- executing a trace -------------------------------------------------------------------- *)
 Definition state := (fs * list path * result)%type.
@@ -549,6 +574,7 @@ Definition config_influences (c : cfg) : list path := l_properties (c_lang c) ::
 Definition all_influences (k : code) (c : cfg) (i : inputs) : list path := influence_set k c i ++ config_influences c.
 Definition is_config_input (c : cfg) (x : path) : bool := path_in x (config_influences c).
 
+Definition nonempty_keys (l : list N) : bool := match l with [] => false | _ => true end.
 (* ---- triggers of the three ways list-inputs is incomplete --------------------------------- *)
 Definition is_root_key (i : inputs) (key : N) : bool := existsb (fun t => t_key t =? key) (i_roots i).
 (* a root-namespace type refers to a type outside the root namespace *)
@@ -579,7 +605,10 @@ Definition support_consistent (c : cfg) : bool :=
           (l_sup_ser (c_lang c) ++ l_sup_type (c_lang c)).
 
 (* the triggers that remain for the tree under test: a repaired finding no longer restricts the completeness theorem *)
-Definition eff_trig_lookup (k : code) (i : inputs) : bool := negb (k_fix_lookup k) && trig_lookup i.
+(* some known definition refers to another one only inside an expression *)
+Definition trig_constref (i : inputs) : bool := existsb (fun t => nonempty_keys (t_crefs t)) (all_types i).
+Definition eff_trig_lookup (k : code) (i : inputs) : bool :=
+  if k_fix_lookup k && k_fix_constref k then false else trig_constref i || (negb (k_fix_lookup k) && trig_lookup i).
 Definition eff_trig_tpl (k : code) (c : cfg) (i : inputs) : bool := if k_fix_nonj2 k then trig_py k c i else trig_nonj2 k c i.
 Definition eff_trig_sup (k : code) (c : cfg) : bool := (negb (k_fix_suptpl k) && trig_support_override k c) || trig_sup_refs k c.
 
@@ -675,6 +704,6 @@ Definition report (k : code) (c : cfg) (i : inputs) : str :=
   ++ [10; 48 + result_code r4; 10] ++ show_paths (filter (fun p => is_file (f1 p)) (dedup (cand_paths k (real_of c) i))) ++ [10]
   ++ show_paths (influence_set k c i) ++ [10]
   ++ [b2n (trig_lookup i); b2n (trig_nonj2 k c i); b2n (trig_support_override k c); b2n (support_consistent c);
-      b2n (k_fix_lookup k); b2n (k_fix_nonj2 k); b2n (k_fix_suptpl k); b2n (trig_py k c i); b2n (k_path_pure k); b2n (trig_sup_refs k c);
+      b2n (k_fix_lookup k); b2n (k_fix_nonj2 k); b2n (k_fix_suptpl k); b2n (trig_py k c i); b2n (k_path_pure k); b2n (trig_sup_refs k c); b2n (k_fix_constref k); b2n (trig_constref i);
       48 + result_code r5]
   ++ [10] ++ show_paths (filter (fun p => is_dir (f1 p)) (dedup (flat_map parents (dedup (cand_paths k (real_of c) i))))).
